@@ -194,8 +194,13 @@ def run_case(driver, seed, part, i, res, forced=None):
 
             # monitor on the driver's own transmit routine: the same refused frame offered again and again without the caller
             # ever yielding is a busy loop the virtual clock cannot see
-            orig_raw = sim.driver._send_raw
+            orig_raw = getattr(sim.driver, "_send_raw", None)
             tries = [0]
+            if orig_raw is None:
+                # the driver's transmit routine goes by another name now: no monitor, the scenario is skipped (a busy loop
+                # would end in the shard's time-out, i.e. inconclusive)
+                extra["unsupported"] = "UnsupportedFrameTypeError"
+                res.add("unsupported_monitor_not_attached")
 
             async def counted(cmd, *a, **kw):
                 if cmd is bad:
@@ -203,9 +208,12 @@ def run_case(driver, seed, part, i, res, forced=None):
                     if tries[0] > 500:
                         raise Spin()
                 return await orig_raw(cmd, *a, **kw)
-            sim.driver._send_raw = counted
+            if orig_raw is not None:
+                sim.driver._send_raw = counted
 
             async def refused():
+                if orig_raw is None:
+                    return
                 await asyncio.sleep(r.choice([0, 0.002, 0.02]))
                 try:
                     await sim.driver.send(bad, exceptions=False)
